@@ -39,4 +39,21 @@ CHECKS = {
                      "reorderings are not modelled", "no yield points inside uninstrumented shared libraries (libstdc++.so, libc), only at "
                      "their call boundaries", "sampling of schedules, not enumeration"],
     ),
+    "C06": dict(
+        level="exploration",
+        parts=[dict(harness="chk_C06", variant="seq", src="checks/chk_C06.cpp",
+                    runs=dict(quick=8000, thorough=400000), wall_cap=dict(quick=150, thorough=2400))],
+        rule=("one case = one generated plan of one of three kinds: (schedule) a real OSMAPOSL or OSSPS reconstruct() loop on a tiny "
+              "geometry with a recording objective function, drawn (num_subsets, num_subiterations, start sub-iteration, start subset, "
+              "randomise on/off), simulated clock value and jumps, rand() mode (glibc / adversarial / constant 0 / constant RAND_MAX) and a "
+              "foreign consumer of rand()/srand() between sub-iterations; (partition) drawn (views<=96, subsets, segment range, symmetry "
+              "class) checked for disjoint cover; (balanced) reported balance vs counted viewgrams.  Non-trivial: every run; distinct = "
+              "distinct event-log hash (the recorded subset sequence and configuration)."),
+        components=dict(real=REAL_COMMON + ["IterativeReconstruction::reconstruct loop, OSMAPOSL/OSSPS update_estimate, real objective function "
+                                            "and projectors (recording subclass only observes subset numbers), find_basic_vs_nums_in_subset, "
+                                            "PET and trivial symmetries"],
+                        stub=STUB_CLOCK + ["rand()/srand(): simulator modes in front of glibc"]),
+        assumptions=["partition and balance clauses are sampled (seeded draws), not enumerated", "tiny geometries (<=16 views for schedules)"],
+        distinct_by_hash=True,
+    ),
 }
